@@ -262,7 +262,131 @@ int main(int argc, char** argv) {
   f3.chunk = 512;
   f3.rule = "repeated application: all (E,T1,T2) over the first " + std::to_string(m3) + " x " + std::to_string(m3t) + "^2 values; expected merge(merge(E,T1),T2)";
 
+  // SC: deep chains. d nested two-member objects {"a":{"a":...,"b":1},"b":1} on both sides (every nesting depth the
+  // handler's stacks pass through), the chain of the text one level shorter / equal / longer, and at the bottom every
+  // combination of kinds (so that the switch from "update in place" to "build a new value" happens at every depth)
+  static std::vector<unsigned> DC;
+  if (DC.empty()) {
+    for (unsigned d = 0; d <= 70; d++) DC.push_back(d);
+    for (unsigned b : {128u, 256u})
+      for (int x = -1; x <= 1; x++) DC.push_back(b + x);
+  }
+  static const char* kBotE[6] = {"1", "\"s\"", "null", "[1]", "{}", "{\"a\":1}"};
+  static const char* kBotT[7] = {"{}", "{\"a\":2}", "{\"c\":1}", "[1,{\"a\":1}]", "2", "{\"a\":{\"a\":1}}", "{\"a\":1,\"b\":{\"a\":[]}}"};
+  vr::Family f6;
+  f6.name = "SC_deep_chains";
+  f6.count = (uint64_t)DC.size() * 3 * 6 * 7 * 3;
+  f6.group = "SC";
+  f6.chunk = 64;
+  f6.rule = "E = d nested objects {\"a\":{...},\"b\":1} over a bottom value from {1,\"s\",null,[1],{},{\"a\":1}} for every d in 0..70; T = the same chain of depth d-1, d, d+1 over a bottom from 7 values (d in 127..129, 255..257: equal depth, 3 x 3 bottoms) of every kind (incl. {} and objects that introduce new / nested members); the 3 states of the existing document for d <= 16, as parsed beyond";
+  auto chain = [](unsigned d, const char* bottom, const char* sibling) {
+    std::string s;
+    for (unsigned i = 0; i < d; i++) s += "{\"a\":";
+    s += bottom;
+    for (unsigned i = 0; i < d; i++) s += std::string(",\"b\":") + sibling + "}";
+    return s;
+  };
+
+  // SV: member COUNTS. Existing object of N members, text with M undeclared keys and updates of the first / middle /
+  // last declared member in 4 layouts
+  static std::vector<unsigned> NV = {0, 1, 2, 3, 8, 15, 16, 17, 24, 31, 32, 33, 34, 40, 64, 65}, MV;
+  if (MV.empty()) {
+    for (unsigned m = 0; m <= 40; m++) MV.push_back(m);
+    for (unsigned m : {48u, 63u, 64u, 65u, 100u}) MV.push_back(m);
+  }
+  vr::Family f7;
+  f7.name = "SV_member_counts";
+  f7.count = (uint64_t)NV.size() * MV.size() * 4 * 2 * 3;
+  f7.group = "SV";
+  f7.chunk = 64;
+  f7.rule = "existing object of N members (N in {0,1,2,3,8,15..17,24,31..34,40,64,65}) x text with M undeclared keys (every M in 0..40 and 48,63..65,100) plus values for the first, middle and last declared member, in 4 layouts (undeclared first / declared first / interleaved / undeclared first with the declared ones in reverse order), declared values merged (object) or replaced (string); x 3 states of the existing document";
+
   vr::CheckFn check = [&](const vr::Family& f, uint64_t idx, vr::Ctx& ctx) {
+    if (f.name[1] == 'V') {
+      int emode = (int)(idx % 3);
+      idx /= 3;
+      unsigned repl = (unsigned)(idx % 2);
+      idx /= 2;
+      unsigned layout = (unsigned)(idx % 4);
+      idx /= 4;
+      unsigned M = MV[idx % MV.size()];
+      unsigned N = NV[idx / MV.size()];
+      auto tk = [](unsigned j) { return "\"k" + std::to_string(j) + "\""; };
+      std::string et = "{";
+      for (unsigned j = 0; j < N; j++) et += std::string(j ? "," : "") + tk(j) + ":{\"v\":" + std::to_string(j) + ",\"w\":null}";
+      et += "}";
+      std::vector<unsigned> upd;
+      if (N) upd.push_back(0);
+      if (N > 2) upd.push_back(N / 2);
+      if (N > 1) upd.push_back(N - 1);
+      if (layout == 3) std::reverse(upd.begin(), upd.end());
+      std::vector<std::string> news, upds, items;
+      for (unsigned j = 0; j < M; j++) news.push_back("\"n" + std::to_string(j) + "\":" + (j % 3 == 2 ? "{\"v\":[1,{\"k0\":2}]}" : std::to_string(j)));
+      for (unsigned u : upd) upds.push_back(tk(u) + ":" + (repl ? "\"replaced\"" : "{\"w\":" + std::to_string(u) + ",\"zz\":1}"));
+      if (layout == 0 || layout == 3) {
+        items = news;
+        items.insert(items.end(), upds.begin(), upds.end());
+      } else if (layout == 1) {
+        items = upds;
+        items.insert(items.end(), news.begin(), news.end());
+      } else {
+        size_t ui = 0;
+        for (size_t j = 0; j < news.size(); j++) {
+          if (ui < upds.size() && j * upds.size() >= ui * news.size()) items.push_back(upds[ui++]);
+          items.push_back(news[j]);
+        }
+        while (ui < upds.size()) items.push_back(upds[ui++]);
+      }
+      std::string tt = "{";
+      for (size_t j = 0; j < items.size(); j++) tt += (j ? "," : "") + items[j];
+      tt += "}";
+      ref::Result re = ref::parse(et), rt = ref::parse(tt);
+      if (!re.ok || !rt.ok) {
+        ctx.violation("generator_invalid", "generator_invalid", tt, "harness error: generated text is not valid");
+        return;
+      }
+      ctx.eval();
+      ctx.nontriv();
+      if (ctx.want_sample) ctx.sample("N=" + std::to_string(N) + " M=" + std::to_string(M) + " layout " + std::to_string(layout) + (repl ? " replace" : " merge"));
+      std::vector<const std::string*> ts1 = {&tt};
+      std::vector<const ref::Value*> Ts1 = {&rt.v};
+      apply<PoolDoc>(et, ts1, re.v, Ts1, "pool", ctx, emode);
+#if HAVE_ASAN
+      apply<SimpleDoc>(et, ts1, re.v, Ts1, "simple", ctx, emode);
+#endif
+      return;
+    }
+    if (f.name[1] == 'C') {
+      int emode = (int)(idx % 3);
+      idx /= 3;
+      unsigned bt = (unsigned)(idx % 7);
+      idx /= 7;
+      unsigned be = (unsigned)(idx % 6);
+      idx /= 6;
+      int dd = (int)(idx % 3) - 1;
+      unsigned d = DC[idx / 3];
+      // beyond depth 70 (the reference model is quadratic in the depth): equal depths, 3 x 3 bottoms
+      if ((int)d + dd < 0 || (d > 16 && emode != 0) || (HAVE_ASAN && quick && d > 34 && !(d >= 62 && d <= 65)) || (d > 70 && (dd != 0 || !(be == 0 || be == 4 || be == 5) || !(bt == 0 || bt == 1 || bt == 5)))) {
+        ctx.skip();
+        return;
+      }
+      std::string et = chain(d, kBotE[be], "1"), tt = chain((unsigned)((int)d + dd), kBotT[bt], "true");
+      ref::Result re = ref::parse(et), rt = ref::parse(tt);
+      if (!re.ok || !rt.ok) {
+        ctx.violation("generator_invalid", "generator_invalid", et, "harness error: generated chain is not valid");
+        return;
+      }
+      ctx.eval();
+      ctx.nontriv();
+      if (ctx.want_sample) ctx.sample("depth " + std::to_string(d) + (dd < 0 ? "-1" : dd > 0 ? "+1" : "") + " E-bottom " + kBotE[be] + " T-bottom " + kBotT[bt]);
+      std::vector<const std::string*> ts1 = {&tt};
+      std::vector<const ref::Value*> Ts1 = {&rt.v};
+      apply<PoolDoc>(et, ts1, re.v, Ts1, "pool", ctx, emode);
+#if HAVE_ASAN
+      apply<SimpleDoc>(et, ts1, re.v, Ts1, "simple", ctx, emode);
+#endif
+      return;
+    }
     std::vector<const std::string*> ts;
     std::vector<const ref::Value*> Ts;
     size_t ei;
@@ -321,7 +445,7 @@ int main(int argc, char** argv) {
 #endif
   };
 
-  std::vector<vr::Family> fams = {f1, f2, f3, f4, f5};
+  std::vector<vr::Family> fams = {f1, f2, f3, f4, f5, f6, f7};
   if (args.replay) return R.replay_one(fams, check);
   const std::string only = args.get("only");
   for (auto& f : fams)
